@@ -23,7 +23,7 @@ RULE = ("parameter points: exponential a in (0.01,5], poisson mean in (0.05,30] 
 ASSUMPTIONS = ["oracle: 50-digit decimal closed forms; zeta/polylog by direct summation + Euler-Maclaurin tail",
                "tolerance for power laws = 1.5 * (mass of all series terms below 1e-6) / exact normaliser + 1e-12; closed forms 1e-12 relative",
                "Poisson evaluated for k <= 120 only (float overflow of k! beyond 170 is outside what is asserted)"]
-HEADLINE = ["points", "pointwise_decimal_checks", "pointwise_float_checks", "normalisation_checks", "exponential", "poisson", "power_law", "scale_free_cut_off", "history_callables", "history_evaluations", "factory_calls_with_keywords"]
+HEADLINE = ["points", "pointwise_decimal_checks", "pointwise_float_checks", "normalisation_checks", "exponential", "poisson", "power_law", "scale_free_cut_off", "history_callables", "history_evaluations", "factory_calls_with_keywords", "far_tail_evaluations", "typed_degree_checks"]
 REQUIRED = {t: {"exponential": 5, "poisson": 5, "power_law": 5, "scale_free_cut_off": 5, "normalisation_checks": 20, "history_evaluations": 200}
             for t in ("quick", "thorough")}
 TOL_SERIES = 1e-6
@@ -283,6 +283,27 @@ def run_history(res, seed):
             return
 
 
+def typed_degrees(res, dist, params):
+    """a degree is a degree whatever integer type carries it: p(np.int64(k)), p(np.uint8(k)) ... (what a caller gets from looping over
+    np.arange or a degree array) must be the value p(k) has for the Python int, for float- and int-typed parameters alike"""
+    import numpy as np
+    p = make(res, dist, params, "positional")
+    lo = 0 if dist in ("exponential", "poisson") else 1
+    ks = [k for k in (lo, 1, 2, 3, 7, 20, 21, 40, 63, 64, 100) if k >= lo]
+    for T in (np.int64, np.int32, np.uint8, np.uint16, np.uint64, np.intp):
+        for k in ks:
+            want = float(sut(f"{dist}{tuple(params)}({k})", p, k))
+            try:
+                got = float(p(T(k)))
+            except Exception as e:      # noqa: BLE001
+                res.violate("degree-of-a-numpy-integer-type-is-not-evaluated", dist=dist, params=params, k=k, degree_type=T.__name__, error=repr(e)[:200], python_int_value=want)
+                return
+            res.count("typed_degree_checks")
+            if not (abs(got - want) <= 1e-9 * abs(want) + 1e-300):
+                res.violate("value-depends-on-the-integer-type-of-the-degree", dist=dist, params=params, k=k, degree_type=T.__name__, got=got, python_int_value=want)
+                return
+
+
 def run_case(case):
     res = Result()
     if case["dist"] == "history":
@@ -292,6 +313,8 @@ def run_case(case):
         res.sample = {"dist": "history", "seed": case["params"][0]}
         return res
     check_point(res, case["dist"], case["params"])
+    if res.verdict == "held":
+        typed_degrees(res, case["dist"], case["params"])
     res.nontrivial = True
     res.digest = digest([case["dist"], case["params"]])
     res.sample = {"dist": case["dist"], "params": case["params"]}
